@@ -50,15 +50,20 @@ impl Record {
         let alignment_start = record.alignment_start().transpose()?;
 
         let features = if let (Some(id), Some(start)) = (reference_sequence_id, alignment_start) {
-            let (reference_sequence_name, _) = header
-                .reference_sequences()
-                .get_index(id)
-                .expect("missing reference sequence ID");
+            let (reference_sequence_name, _) =
+                header.reference_sequences().get_index(id).ok_or_else(|| {
+                    io::Error::new(io::ErrorKind::InvalidInput, "invalid reference sequence ID")
+                })?;
 
             let reference_sequence = reference_sequence_repository
                 .get(reference_sequence_name)
                 .transpose()?
-                .expect("missing reference sequence");
+                .ok_or_else(|| {
+                    io::Error::new(
+                        io::ErrorKind::InvalidInput,
+                        format!("missing reference sequence: {reference_sequence_name}"),
+                    )
+                })?;
 
             cigar_to_features(
                 record.cigar().as_ref(),
